@@ -15,6 +15,7 @@ verus! {
 //@include contracts/metablock_specs.rs
 //@include contracts/metablock_stub.rs
 //@include contracts/stage_specs.rs
+//@include lemmas/owner_gate.rs
 
 proof fn lemma_counted_in_table(mb: Metablock, m: Map<KeyId, PublicKey>, ks: Seq<&PublicKey>, id: KeyId)   // [C01]
     requires ks.unref().to_set() == m.values(), counted_ok(mb, ks, id)
